@@ -187,4 +187,23 @@ CHECKS = {
              "str() on all paths; attribute translation wiring.",
         note="simple_translate's substitution regex and the translation "
              "function's own behaviour are not decided."),
+    "C12": dict(
+        technique="structural rules on the error plumbing: insertion point of "
+                  "token references, def-use of the source text across "
+                  "parse/_compile/program, handler shapes (path enumeration), "
+                  "class construction of the decorated exception",
+        text="Decides that a token reference is inserted before every "
+             "expression evaluation (position 0; macro calls; code blocks), "
+             "that the last of adjacent references wins and internal macro "
+             "calls clear it; that the compiler re-slices recorded offsets "
+             "from the text the program tokenised (source identity across "
+             "the newline normalisation); that every render function's "
+             "handler records (token entry, filename, exception) and "
+             "re-raises with a bare raise; that render() lets RecursionError "
+             "through first, re-types only Exceptions, returns output only "
+             "on the normal path, and that the decorated class derives from "
+             "(original class, RenderError) with args and __dict__ copied.",
+        note="Message layout (ExceptionFormatter) is not decided.  Known "
+             "finding: entity decoding before the reference shortens the "
+             "recorded extent (expressions containing &lt; etc.)."),
 }
